@@ -28,6 +28,7 @@ from beartype._util.func.arg.utilfuncargtest import (
 from beartype._util.text.utiltextlabel import label_callable
 from beartype._data.kind.datakindiota import SENTINEL
 from functools import wraps
+from weakref import ref as _weakref_ref
 
 # ....................{ DECORATORS ~ callable              }....................
 def callable_cached(func: CallableT) -> CallableT:
@@ -423,6 +424,14 @@ def method_cached_arg_by_id(func: CallableT) -> CallableT:
     # get() method of this dictionary, localized for efficiency.
     args_flat_to_exception_get = args_flat_to_exception.get
 
+    # Dictionary mapping a tuple of all flattened parameters passed to each
+    # prior call of the decorated callable with the 2-tuple of callables
+    # returning the two objects those identifiers identified at that time.
+    args_flat_to_args_refs: dict[tuple, tuple] = {}
+
+    # get() method of this dictionary, localized for efficiency.
+    args_flat_to_args_refs_get = args_flat_to_args_refs.get
+
     # ....................{ CLOSURE                        }....................
     @wraps(func)
     def _method_cached(self_or_cls, arg):
@@ -441,40 +450,48 @@ def method_cached_arg_by_id(func: CallableT) -> CallableT:
 
         # Attempt to...
         try:
-            # Exception raised by a prior call to the decorated callable when
-            # passed these parameters *OR* the sentinel placeholder otherwise
-            # (i.e., if this callable either has yet to be called with these
-            # parameters *OR* has but failed to raise an exception).
+            # 2-tuple "(self_or_cls_ref, arg_ref)" of callables returning the
+            # two objects for which the value or exception cached against these
+            # identifiers was computed if any *OR* "None" otherwise.
             #
-            # Note that:
-            # * This statement raises a "TypeError" exception if any item of
-            #   this flattened tuple is unhashable.
-            # * A sentinel placeholder (e.g., "SENTINEL") is *NOT* needed here.
-            #   The values of the "args_flat_to_exception" dictionary are
-            #   guaranteed to *ALL* be exceptions. Since "None" is *NOT* an
-            #   exception, disambiguation between "None" and valid dictionary
-            #   values is *NOT* needed here. Although a sentinel placeholder
-            #   could still be employed, doing so would slightly reduce
-            #   efficiency for *NO* real-world gain.
-            exception = args_flat_to_exception_get(args_flat)
+            # Object identifiers are only unique among *LIVING* objects: once
+            # either of these two objects has been garbage-collected, CPython
+            # is free to (and frequently does) hand the same identifier to a
+            # new unrelated object. A cache entry is thus valid only if both of
+            # these callables still return the objects passed to this call.
+            args_refs = args_flat_to_args_refs_get(args_flat)
 
-            # If this callable previously raised an exception when called with
-            # these parameters, re-raise the same exception.
-            if exception:
-                raise exception  # pyright: ignore
-            # Else, this callable either has yet to be called with these
-            # parameters *OR* has but failed to raise an exception.
+            # If an entry was previously cached against these identifiers for
+            # exactly these two objects...
+            if (
+                args_refs is not None and
+                args_refs[0]() is self_or_cls and
+                args_refs[1]() is arg
+            ):
+                # Exception raised by that prior call if any *OR* "None".
+                exception = args_flat_to_exception_get(args_flat)
 
-            # Value returned by a prior call to the decorated callable when
-            # passed these parameters *OR* a sentinel placeholder otherwise
-            # (i.e., if this callable has yet to be passed these parameters).
-            return_value = args_flat_to_return_value_get(args_flat, SENTINEL)
+                # If that call raised an exception, re-raise that exception.
+                if exception:
+                    raise exception  # pyright: ignore
 
-            # If this callable has already been called with these parameters,
-            # return the value returned by that prior call.
-            if return_value is not SENTINEL:
-                return return_value
-            # Else, this callable has yet to be called with these parameters.
+                # Value returned by that prior call if any *OR* the sentinel.
+                return_value = args_flat_to_return_value_get(
+                    args_flat, SENTINEL)
+
+                # If that call returned a value, return that value.
+                if return_value is not SENTINEL:
+                    return return_value
+            # Else, either no entry has been cached against these identifiers
+            # *OR* that entry describes objects that have since died. In the
+            # latter case, forget that stale entry.
+            elif args_refs is not None:
+                args_flat_to_exception.pop(args_flat, None)
+                args_flat_to_return_value.pop(args_flat, None)
+
+            # Record the two objects this entry is about to be computed for.
+            args_flat_to_args_refs[args_flat] = (
+                _make_object_ref(self_or_cls), _make_object_ref(arg))
 
             # Attempt to...
             try:
@@ -504,6 +521,23 @@ def method_cached_arg_by_id(func: CallableT) -> CallableT:
     # ....................{ RETURN                         }....................
     # Return this wrapper.
     return _method_cached  # type: ignore[return-value]
+
+# ....................{ PRIVATE ~ references               }....................
+def _make_object_ref(obj: object):
+    '''
+    Callable returning the passed object for as long as that object is alive.
+
+    This callable is a weak reference if that object is weakly referenceable
+    (in which case the identifier of that object may be reused after that
+    object dies, which that reference then detects by returning :data:`None`)
+    *or* a trivial closure strongly referring to that object otherwise (in
+    which case that object is kept alive and its identifier is never reused).
+    '''
+
+    try:
+        return _weakref_ref(obj)
+    except TypeError:
+        return lambda: obj
 
 # ....................{ DECORATORS ~ property              }....................
 def property_cached(func: CallableT) -> CallableT:
